@@ -2386,6 +2386,23 @@ def c11(idx: Index, rep: Report, tier: str) -> None:
         for t, o in guards_dominating(cfg, nd):
             facts |= membership_facts(t.ast, o)
         ok = any(".variable()" in l and r in bound_sets for l, r in facts)
+        if not ok and c.args and isinstance(c.args[0], ast.Dict) and len(c.args[0].keys) == 1 and isinstance(c.args[0].keys[0], ast.Name):
+            # the search for the equality may have been extracted into a private helper that returns (…, variable,
+            # value): the test is then looked for on the paths to the helper's tuple-returning statements
+            from ..rules2 import through_helper
+
+            th = through_helper(sim, we, c.args[0].keys[0].id)
+            if th is not None:
+                h, hname, pmap, rets = th
+                hcfg = cfg_of(h)
+                good = []
+                for r in rets:
+                    rn = [x for x in hcfg.nodes if x.ast is r]
+                    hf = set()
+                    for t, o in (guards_dominating(hcfg, rn[0]) if rn else []):
+                        hf |= membership_facts(t.ast, o)
+                    good.append(any(l.startswith(hname + ".variable()") and pmap.get(r_, r_) in bound_sets for l, r_ in hf))
+                ok = bool(good) and all(good)
         rep.check(ok, rule_b, "walk_exists substitutes a variable away only if this Exists binds it", we.loc(c), construct=norm(c)[:70] + (" under `… .variable() in <bound variables>`" if ok else " without a test that the variable is bound here"), detail="" if ok else "an equality between terms of the enclosing scope is used to eliminate a variable this quantifier does not bind: the equality disappears and a free variable is replaced in the body (Exists x. (y == z and p(x, z)) becomes Exists x. p(x, y))", function=we.qualname)
     rep.count("eliminations", k)
     rep.require_min(rule_b, "eliminations", 1)
